@@ -466,6 +466,22 @@ Theorem non_digest_is_error split input :
   parse_challenge_with split input = inr EBadChallenge.
 Proof. intros Hp. unfold parse_challenge_with. now rewrite Hp. Qed.
 
+(* ---------- the 401's connection and the re-send ---------- *)
+
+(* closing the challenge response first: the re-send finds a connection whenever the call itself
+   had one (the other calls leave room), read or unread 401 body alike *)
+Theorem resend_not_blocked_by_own_401 limit others unread :
+  others < limit -> resend_gets_connection limit others unread true = true.
+Proof.
+  intros H. unfold resend_gets_connection. rewrite andb_false_r, Nat.add_0_r. now apply Nat.ltb_lt.
+Qed.
+
+(* keeping it open until the answer has arrived (a seeded change): one connection per host and
+   an unread 401 - the re-send waits for the connection its own call holds *)
+Example hold_401_until_answer_refuted :
+  resend_gets_connection 1 0 true false = false /\ resend_gets_connection 1 0 true true = true.
+Proof. split; reflexivity. Qed.
+
 (* ---------- several WWW-Authenticate lines ---------- *)
 
 (* the Digest challenge is found behind any number of lines of other schemes *)
